@@ -162,6 +162,18 @@ Definition magic_ok (u : string * N * option N * list N) : bool :=
   let '(_, v, req, allowed) := u in
   existsb (N.eqb v) allowed && match req with Some r => v =? r | None => true end.
 
+(* the build-time limit override: package consts' init() after `MaxMatchSetLen = atoi(MaxMatchSetLen_)`, as a list of
+   steps read from the source; None = the process refuses to start (panic) *)
+Inductive init_step :=
+| IGuardMod (k : N)           (* if MaxMatchSetLen % k != 0 { panic } *)
+| IRoundUp (a k : N).         (* MaxMatchSetLen = (MaxMatchSetLen + a) / k * k *)
+Fixpoint run_init (steps : list init_step) (m : N) : option N :=
+  match steps with
+  | [] => Some m
+  | IGuardMod k :: r => if m mod k =? 0 then run_init r m else None
+  | IRoundUp a k :: r => run_init r ((m + a) / k * k)
+  end.
+
 (* field lookup used by the key models *)
 Definition field_off (ly : layout) (name : string) : option N :=
   match find (fun l => String.eqb (lf_name l) name) (ly_leaves ly) with
